@@ -201,7 +201,7 @@ Proof.
     { destruct (beqb (r_version r) (lit "1.1")); [destruct (_ || _)|];
         destruct P as (tail & _ & _ & _ & _ & P5 & _); exact P5. }
     unfold has_body. rewrite Pst', S2, Hst. reflexivity. }
-  rewrite Ew, Ec, En, Ehead.
+  rewrite Ew, Ec, En, Ehead, Hhead. cbn [negb]. rewrite andb_true_r.
   destruct (beqb (r_version r) (lit "1.1")) eqn:Ev.
   - (* HTTP/1.1: chunked *)
     set (cl1 := beqb (request_connection r) (lit "close") || r_connection_close r) in *.
@@ -525,7 +525,7 @@ Proof.
       [|intro X; discriminate X].
     intros _. destruct (finish_fresh cap lower c r t1 (mkChan [] 0) s3 (Ok tt) Hc1 S5 Ef eq_refl) as (tp & head & Eb & Ht & W).
     destruct (Hclient tp head Eb) as (Ec & Ek & sl & fields & PL & Esl & Hin & Hk1 & Hk2).
-    fold (chan_wire (snd s3)). rewrite W, Ht, Ek. cbn [chan_wire ch_writes rev wire flat_map List.app t_cof set_wrote].
+    fold (chan_wire (snd s3)). rewrite W, Ht, Ek. cbn [andb chan_wire ch_writes rev wire flat_map List.app t_cof set_wrote].
     rewrite app_nil_r. rewrite (all_empty_concat chunks Hall), app_nil_r in PL.
     exists sl, fields. rewrite PL, (all_empty_concat chunks Hall), Ec, negb_involutive. repeat split; auto.
   - (* the head went out with the first non-empty chunk *)
@@ -538,9 +538,62 @@ Proof.
     rewrite Etf.
     assert (Hw2 : t_wrote_header t2 = true) by (rewrite A4; reflexivity).
     destruct (finish_after_head cap lower c r t2 ch2 Hw2) as (ch3 & Ef & W3). rewrite Ef. cbn [x_out x_st fst snd].
-    intros _. fold (chan_wire ch3). rewrite W3, W2, A2, A3. cbn [t_chunked t_cof set_wrote]. rewrite Ek, app_nil_r.
+    intros _. fold (chan_wire ch3). rewrite W3, W2, A2, A3. cbn [t_chunked t_cof set_wrote]. rewrite Ek. cbn [andb]. rewrite app_nil_r.
     cbn [chan_wire ch_writes rev wire flat_map List.app].
     exists sl, fields. rewrite PL, Ec, negb_involutive. repeat split; auto.
+Qed.
+
+Lemma table_no_colon v11 conn fc has_cl hb :
+  Forall (fun h : str * str => no_colon (fst h)) (fst (fst (conn_table v11 conn fc has_cl hb))).
+Proof.
+  unfold conn_table.
+  destruct v11, (beqb conn (lit "close") || fc), (beqb conn (lit "keep-alive") && negb fc && has_cl), has_cl, hb;
+    cbn; repeat constructor.
+Qed.
+
+(* C03_frame for HEAD: a plain application without a declared length that (as the
+   WSGI contract demands for HEAD) produces no body bytes: the client, knowing it
+   asked with HEAD, reads the head and NOTHING is left over -- whatever the head
+   says about Transfer-Encoding (before b49920f a chunked terminator followed). *)
+Theorem frame_head_nolen status hs kind chunks hc :
+  r_error r = None -> is_file kind = false -> len1 kind = false -> Forall (not_cl lower) hs ->
+  plain_fields (strs_of hs) ->
+  r_head r = true -> all_empty chunks ->
+  let res := channel_service cap lower c r (simple_app status hs kind chunks hc) None in
+  o_raw res = None ->
+  exists sl fields,
+    parse_one true (wire (o_writes res)) = Some (mkResponse sl fields FNoBody [], [])
+    /\ sl = lit "HTTP/" ++ (if beqb (r_version r) (lit "1.1") then lit "1.1" else lit "1.0") ++ [32] ++ status
+    /\ (forall h, In h (strs_of hs) -> In (client_field (norm_field cap h)) fields).
+Proof.
+  intros He Hf Hl Hcl Hpl Hhead Hall. cbn zeta. intro Hraw.
+  destruct (simple_nolen_wire cap lower c r status hs kind chunks hc He Hf Hl Hcl Hraw)
+    as (t1 & tp & head & Esr & Eb & Ew & _).
+  destruct (start_response_ok lower _ _ _ _ _ Esr) as (_ & S2 & S3 & S4 & S5 & S6 & S7 & S8 & S9 & _).
+  cbn [new_task t_rh t_wrote_header t_cof t_chunked t_cbw t_v11 str_of List.app] in *.
+  pose proof (start_response_no_cl lower (new_task (r_version r) false) (PStr status) hs None Hcl) as Hclen.
+  rewrite Esr in Hclen. cbn [fst new_task t_clen] in Hclen.
+  assert (Hclean1 : task_clean t1).
+  { pose proof (start_response_clean lower (new_task (r_version r) false) (PStr status) hs None) as G.
+    rewrite Esr in G. cbn [fst] in G. apply G. split; [reflexivity|constructor]. }
+  assert (Etp : tp = bh_prepare cap lower c r t1) by (unfold build_response_header in Eb; inversion Eb; auto).
+  assert (Ehead : head = head_text tp).
+  { unfold build_response_header in Eb. injection Eb as E1 E2. apply encode_latin1_ok in E2. subst. reflexivity. }
+  assert (Hcleanp : task_clean tp) by (subst tp; apply bh_prepare_clean; auto).
+  rewrite <- S3 in Hpl.
+  pose proof (prepared_nolen t1 S6 S5 S7 Hclen Hpl) as P. cbn zeta in P. rewrite <- Etp in P.
+  pose proof (table_no_colon (t_v11 t1) (request_connection r) (r_connection_close r) false (has_body t1)) as Hadd.
+  destruct (conn_table (t_v11 t1) (request_connection r) (r_connection_close r) false (has_body t1)) as [[add cof] chk].
+  cbn [fst] in Hadd. destruct P as (tail & Prh & Ptail & _ & _ & Pst & Pv).
+  assert (Hnc : Forall (fun h => no_colon (fst h)) (t_rh tp)).
+  { rewrite Prh. apply Forall_app. split; [apply plain_no_colon; auto|]. apply Forall_app. split; auto.
+    apply tail_no_colon; auto. }
+  rewrite Ew, Ehead, Hhead, (body_enc_all_empty tp chunks Hall). cbn [negb]. rewrite andb_false_r. cbn [List.app].
+  pose proof (parse_nobody tp true [] Hcleanp Hnc (or_introl eq_refl)) as PN. rewrite !app_nil_r in *. rewrite PN.
+  eexists _, _. split; [reflexivity|]. split.
+  { unfold first_line, version_str. rewrite Pv, S9, Pst, S2. reflexivity. }
+  intros h Hh. apply in_map. eapply Permutation_in; [apply Permutation_sym, sort_perm|].
+  rewrite Prh. apply in_or_app. left. apply in_map. rewrite S3. exact Hh.
 Qed.
 
 End End2End.
